@@ -94,6 +94,10 @@ def run_check(prop, tier, seed, a, t0):
     units = []
     for c in contracts:
         units += units_for(c, ix, world)
+    from pyvc.verify import lemma_unit
+    for lem in ix.lemmas:
+        if prop in lem.props and (not a.only or a.only in lem.name):
+            units.append(lemma_unit(lem, ix, world))
     timeout = 20 if tier == "quick" else 120
     results = discharge(units, smtdir, timeout=timeout, tier=tier)
     by_unit = {}
